@@ -172,7 +172,7 @@ Mutated mutate(const TypeOps& t, const Value& v, Tape& tp, int nmut, const Value
       ov.what = Override::SetPrefixByte; ov.value = tp.below(3) ? pre[tp.below(sizeof pre)] : (tp.next() & 0xff);
       m.what.push_back(fmt("field %zu (prefix of %d): byte %02x -> %02x", fi, (int)f.owner, (unsigned)f.value & 0xff, (unsigned)ov.value));
     } else if (kind == 4) {
-      ov.what = Override::EntrySizeDelta; ov.delta = tp.below(2) ? 1 + (long)tp.below(4) : -(1 + (long)tp.below(std::max<uint64_t>(1, f.value)));
+      ov.what = Override::EntrySizeDelta; ov.delta = tp.below(2) ? (tp.below(4) == 0 ? 60 + (long)tp.below(300) : 1 + (long)tp.below(4)) : -(1 + (long)tp.below(std::max<uint64_t>(1, f.value)));
       ov.pad = ov.delta > 0 && tp.below(2);
       m.what.push_back(fmt("field %zu (entry size %llu): delta %ld%s", fi, (unsigned long long)f.value, ov.delta, ov.pad ? " with padding" : ""));
     } else {  // kind 8: raw prefix byte + payload of matching width
